@@ -35,6 +35,7 @@ CALIBRATE = bool(os.environ.get('NVERIF_CALIBRATE'))
 FLOOR = 64.0
 AFFINE_CS = 16.0
 C_R = 64.0
+OVERFLOW = 1e150
 METHODS = ['central', 'forward', 'complex']
 GRIDS = [(1, 2), (2, 1), (2, 2), (2, 3), (3, 2), (1, 5), (3, 1)]
 KINDS = ('affine', 'affine', 'quadratic', 'ridge', 'ridge', 'ridge')
@@ -157,6 +158,8 @@ class C19(Prop):
                 ctx.skip('default scipy step leaves the certified disc')
             step = step / over * 10.0 ** (-case['u'])
             ctx.count('relative step scaled into the certified disc')
+        if an.max_majorant(2.0 * width * float(np.max(model_steps(method, step, xa)))) > OVERFLOW:
+            ctx.skip('function values exceed 1e150 on the sampled region (overflow)')
         bounds = case['bounds']
         kw = {}
         lo = hi = None
